@@ -112,6 +112,11 @@ def drive(tmp, seed, count, maxn, race=False, policy=None, scenarios=None, tag="
     if os.path.exists(out):
         results = [x for x in json.load(open(out)) if x["outcome"] != "aborted"]   # ended by the test framework on a race report (reported above)
         for x in results:
+            if x["outcome"] == "stuck":
+                x["ev"] = x.get("ev") or []
+                x["schedule"] = x.get("schedule") or []
+                x["finalsize"] = x.get("finalsize", 0)
+        for x in results:
             x["schedule"] = x.get("schedule") or []
             x["ev"] = x.get("ev") or []
     elif not crash and not races:
@@ -257,6 +262,14 @@ def run(chk, tmp, prop):
                               {"batch": tag, "seed": seed, "frames": fr})
             else:
                 others["C04:data-race"] += 1
+        for x in [x for x in (results or []) if x["outcome"] == "stuck"]:
+            # not even the bubble could settle: goroutines of the real walker / pool blocked on a lock that is never released
+            if prop in ("C04", "C18"):
+                chk.violation("walker:stuck-on-a-lock", f"the walk of graph deps={x['cfg']['deps']} failfast={x['cfg']['failfast']} did not settle within 90 s of wall time; "
+                                                        f"blocked goroutines of the code under test:\n{x['detail'][:1500]}", x)
+            else:
+                others["C04:stuck"] += 1
+        results = [x for x in (results or []) if x["outcome"] != "stuck"]
         if not results:
             continue
         if policy == "big":
